@@ -37,7 +37,7 @@
 int ex_main(int argc, char** argv);
 void vt_presets(const char* presets);       /* provided per program: sets mode variables that have no usable option */
 
-#define MAXEV 16
+#define MAXEV 96
 typedef struct { char kind; int len; uint8_t data[2048]; } Event;
 static Event g_ev[MAXEV]; static int g_nev, g_pos;
 static int g_timer_armed, g_timer_periodic, g_expiry_budget, g_timer_fd = -1, g_can_fd = -1, g_net_fd = -1;
